@@ -8,6 +8,7 @@
 
 mod conc;
 mod enc;
+mod json;
 mod level;
 mod out;
 mod queue;
@@ -54,6 +55,7 @@ fn main() {
         "conc" => conc::run(&args[2]),
         "queue" => queue::run(&args[2]),
         "qconc" => conc::run_queue(&args[2]),
+        "json" => json::run(),
         other => {
             eprintln!("unknown subcommand {other}");
             std::process::exit(2);
